@@ -337,6 +337,36 @@ func nodeMatrix(procs []int) []Case {
 	return out
 }
 
+// wideCases: scale boundaries the other families do not reach — more chain users in one executor sweep
+// than any plausible per-request concurrency bound (70 / 130 aliased promise-backed connections, and a
+// list of 70 parents each with one), and more pending invocations of one Batch resolver in one wave than
+// any plausible chunk size (lists of 1001 / 2500 items each selecting a batched field).
+func wideCases() []Case {
+	var out []Case
+	for _, n := range []int{70, 130} {
+		c := Case{Seed: uint64(9000 + n), PAsync: 100, PBatch: 0, PGate: 0, RoundK: 4, Procs: 4, MaxN: 2, Note: fmt.Sprintf("%d aliased connections with promised edges", n)}
+		for i := 1; i <= n; i++ {
+			kind := []string{"c", "ca", "t"}[i%3]
+			c.Tree = append(c.Tree, Sel{Name: kind, ID: i, Args: ", first: 1", Parts: []string{"edges"}})
+		}
+		c.Query = render("", c.Tree)
+		out = append(out, c)
+	}
+	lp := Case{Seed: 9070, PAsync: 100, PBatch: 0, PGate: 0, RoundK: 4, Procs: 2, MinN: 70, MaxN: 70, NoNil: true, Note: "a list of 70 parents, each with a connection with promised edges",
+		Over: map[string]Spec{"/l1": {Mode: "sync", Out: "val", N: 70}},
+		Tree: []Sel{{Name: "l", ID: 1, Sub: []Sel{{Name: "c", ID: 2, Args: ", first: 1", Parts: []string{"edges"}}}}}}
+	lp.Query = render("", lp.Tree)
+	out = append(out, lp)
+	for _, n := range []int{1001, 2500} {
+		c := Case{Seed: uint64(9100 + n), PAsync: 100, PBatch: 100, RoundK: 1, Procs: 4, MinN: n, MaxN: n, NoNil: true, OneBatcher: true,
+			Note: fmt.Sprintf("a list of %d items each selecting a field of one Batch resolver", n),
+			Tree: []Sel{{Name: "l", ID: 1, Sub: []Sel{{Name: "i", ID: 2}}}, {Name: "i", ID: 3}}}
+		c.Query = render("", c.Tree)
+		out = append(out, c)
+	}
+	return out
+}
+
 var connKinds = []string{"c", "ca", "cd", "t", "tu"}
 
 func hasCount(kind string) bool { return kind == "ca" || kind == "cd" || kind == "tu" }
